@@ -71,6 +71,17 @@ pub struct Scn {
     pub keep_inputs: bool,
     #[serde(default)]
     pub quiet_adds: bool,
+    /// application free data of the pack (24 bytes, zero padded)
+    #[serde(default)]
+    pub free_data: Vec<u8>,
+}
+
+pub fn free24(v: &[u8]) -> [u8; 24] {
+    let mut a = [0u8; 24];
+    for (i, b) in v.iter().take(24).enumerate() {
+        a[i] = *b;
+    }
+    a
 }
 fn d_none() -> String {
     "none".into()
@@ -293,7 +304,7 @@ fn create(s: &Scn) -> Result<Vec<(u16, u32)>, String> {
             &path,
             jbk::PackId::from(1),
             jbk::VendorId::from([1, 0, 0, 0]),
-            Default::default(),
+            free24(&s.free_data).into(),
             comp,
             prog,
         )
@@ -412,6 +423,7 @@ fn read_back(s: &Scn, addrs: &[(u16, u32)]) -> Result<(), String> {
         emit(json!({"ev":"Open","ok":true}));
         let n = pack.get_content_count().into_u32();
         emit(json!({"ev":"Count","n":n}));
+        emit(json!({"ev":"FreeData","data":pack.get_free_data().to_vec()}));
         let hi = std::cmp::max(n, maxidx.map(|m| m + 1).unwrap_or(0));
         for idx in 0..hi {
             match pack.get_content(jbk::ContentIdx::from(idx)) {
